@@ -207,7 +207,10 @@ def freeze(x, depth=0):
         return ("model", type(x).__name__)
     if isinstance(x, (bool, int, float, str)) or x is None:
         return (type(x).__name__, x if not isinstance(x, float) else repr(x))
-    if isinstance(x, (list, tuple, collections.deque)):
+    if isinstance(x, collections.deque):
+        # a bounded window drops what an unbounded one keeps: the bound is part of the state
+        return ("deque", x.maxlen, [freeze(v, depth + 1) for v in x])
+    if isinstance(x, (list, tuple)):
         return ("list", [freeze(v, depth + 1) for v in x])
     if isinstance(x, dict):
         return ("dict", sorted(((type(k).__name__, str(k)), freeze(v, depth + 1)) for k, v in x.items()))
